@@ -11,8 +11,10 @@
 (***************************************************************************)
 EXTENDS Integers, Sequences, FiniteSets, TLC
 
-CONSTANTS Kinds,      \* subset of {"read", "sender", "write", "attr"}
-          Forks       \* fork names for the attribution / availability vectors
+CONSTANTS Kinds,      \* subset of {"read", "sender", "write", "attr", "work"}
+          Forks,      \* fork names for the attribution / availability vectors
+          AllocPerGas,\* C20: bytes a call may allocate per unit of gas it is charged ...
+          AllocSlack  \* ... on top of this many bytes that any call may allocate (frame, memory page, result)
 
 VARIABLE vec
 vars == <<vec>>
@@ -68,7 +70,15 @@ ATTR == {[k |-> "attr", kind |-> c, depth |-> d, fork |-> f, pc |-> p] :
 SEQ == {[k |-> "seq", kind1 |-> c1, kind2 |-> c2, same |-> sm, fork |-> f] :
            c1 \in {"CALL", "DELEGATECALL"}, c2 \in {"CALL", "CALLCODE", "DELEGATECALL", "STATICCALL"}, sm \in BOOLEAN, f \in Forks \ {"Istanbul"}}
 
-Vectors == (IF "attr" \in Kinds THEN SEQ ELSE {}) \cup (IF "write" \in Kinds THEN WRITE ELSE {}) \cup (IF "read" \in Kinds THEN READ ELSE {})
+\* C20: a call to a precompile (standard 1..9, Artela 100..102) whose first three payload words announce lengths of every size class,
+\* backed by n bytes of actual payload: what the call allocates must be bounded by what it is charged.
+\* 1009..1011 = 2^16, 2^20, 2^24 (sizes an unmetered implementation would really allocate)
+WorkLens == {0, 1, 32, 1009, 1010, 1011, 1002, 1004, 1007}
+WORK == {[k |-> "work", addr |-> p, a |-> x, b |-> y, c |-> z, n |-> n, fork |-> f] :
+            p \in (1..9) \cup {100, 101, 102}, x \in WorkLens, y \in WorkLens, z \in WorkLens, n \in {96, 213, 384}, f \in {"Byzantium", "Berlin"}}
+WorkOK(alloc, gas) == alloc <= AllocPerGas * gas + AllocSlack
+
+Vectors == (IF "work" \in Kinds THEN WORK ELSE {}) \cup (IF "attr" \in Kinds THEN SEQ ELSE {}) \cup (IF "write" \in Kinds THEN WRITE ELSE {}) \cup (IF "read" \in Kinds THEN READ ELSE {})
            \cup (IF "sender" \in Kinds THEN SENDER ELSE {}) \cup (IF "attr" \in Kinds THEN ATTR ELSE {})
 
 Init == vec \in Vectors
@@ -80,6 +90,7 @@ Expect(v) ==
     [] v.k = "read" -> ReadExpect(v)
     [] v.k = "sender" -> SenderExpect(v)
     [] v.k = "attr" -> AttrExpect(v)
+    [] v.k = "work" -> [allocPerGas |-> AllocPerGas, allocSlack |-> AllocSlack]
     [] v.k = "seq" -> [avail |-> TRUE, must |-> IF v.kind2 = "CALL" THEN "caller" ELSE "caller-or-refused"]
 
 \* design sanity: an accepted write lies inside the payload and behind the heads' own length words
